@@ -494,18 +494,32 @@ func runFile(r *vcommon.Report, fi int, rng *rand.Rand, fut *fileUnderTest, base
 			return 2
 		}
 	}
-	baseMs := 1.5 + 0.02*float64(fut.nPoints)
+	// openMs: a corruption that already fails open; fullMs: open succeeds and
+	// every operation walks the (mostly intact) file.
+	openMs := 1.5
+	fullMs := 1.5 + 0.1*float64(fut.nPoints)
 	if fut.kind == "blob" {
-		baseMs = 3 + 0.15*float64(fut.nPoints)
+		openMs = 1.0
+		fullMs = 3 + 0.15*float64(fut.nPoints)
+	}
+	failsOpen := func(kind string) bool {
+		switch strings.TrimSuffix(kind, "-trailer") {
+		case "footer", "metaindex", "properties":
+			return true
+		}
+		return false
 	}
 	weight := func(c corruption) float64 {
 		switch c.pattern {
 		case "truncate", "version-set":
-			return baseMs
+			return openMs
 		case "swap", "swap-prefix":
-			return baseMs + 14*(readCost(blockLenAt[c.off])+readCost(blockLenAt[c.off2]))
+			return fullMs + 14*(readCost(blockLenAt[c.off])+readCost(blockLenAt[c.off2]))
 		case "zero-block", "zero-payload":
-			return baseMs + opsTouching(c.region)*readCost(blockLenAt[c.off])
+			if failsOpen(c.region) {
+				return openMs + readCost(blockLenAt[c.off])
+			}
+			return fullMs + opsTouching(c.region)*readCost(blockLenAt[c.off])
 		}
 		kind, bl := regionOf(c.off)
 		if c.pattern == "garbage8" {
@@ -513,7 +527,10 @@ func runFile(r *vcommon.Report, fi int, rng *rand.Rand, fut *fileUnderTest, base
 				kind, bl = k2, bl2
 			}
 		}
-		return baseMs + opsTouching(kind)*readCost(bl)
+		if failsOpen(kind) {
+			return openMs + readCost(bl)
+		}
+		return fullMs + opsTouching(kind)*readCost(bl)
 	}
 	total := 0.0
 	ws := make([]float64, len(cs))
